@@ -104,6 +104,15 @@ fn new_map<K: KeyT, V: ValT>(plan: &Plan) -> SMap<K, V> {
 }
 
 impl<K: KeyT, V: ValT> MapWorld<K, V> {
+    /// value toggle mask and value normalisation: zero-sized values cannot store a payload
+    pub(crate) const TG: u32 = if V::STORES { TOGGLE } else { 0 };
+    pub(crate) fn nv(x: u32) -> u32 {
+        if V::STORES {
+            x
+        } else {
+            0
+        }
+    }
     pub fn new(cfg: Config) -> Self {
         let slots: Vec<MapSlot<K, V>> = cfg
             .plans
@@ -221,8 +230,8 @@ impl<K: KeyT, V: ValT> MapWorld<K, V> {
             };
             let val_ok = match old {
                 Some(o) if o.v == e.v => true,
-                Some(o) if fc.toggles && (o.v ^ TOGGLE) == e.v => true,
-                _ => fc.allowed.iter().any(|a| a.0 == e.kid && (a.1 == e.v || (fc.toggles && (a.1 ^ TOGGLE) == e.v))),
+                Some(o) if fc.toggles && (o.v ^ Self::TG) == e.v => true,
+                _ => fc.allowed.iter().any(|a| a.0 == e.kid && (a.1 == e.v || (fc.toggles && (a.1 ^ Self::TG) == e.v))),
             };
             if !key_ok || !val_ok {
                 vio!(self, "postpanic/alien-element", "after a {} panic the map holds ({}, {}) which is neither an old entry nor an argument (old: {:?})", class.name(), e.kid, e.v, old);
@@ -332,6 +341,14 @@ impl<K: KeyT, V: ValT> MapWorld<K, V> {
         if a != ms {
             let diff = a.iter().zip(ms.iter()).find(|(x, y)| x != y);
             vio!(self, format!("contents/{}", self.ctx.op_kind), "stored entries differ from the model; first difference (actual, model) = {:?}", diff);
+        }
+        if !K::HAS_SERIAL && K::HAS_DROP && !self.ctx.drop_fault_fired {
+            // elements without a serial are tracked as a multiset: everything live must be stored in a slot
+            let stored: i64 = self.slots.iter().map(|s| s.model.e.len() as i64).sum();
+            let live = sim().ms_live_total();
+            if live != stored + self.ctx.leaked_ms {
+                vio!(self, if live > stored + self.ctx.leaked_ms { "ledger/leak" } else { "ledger/double-drop" }, "{live} droppable elements are live, the collections hold {stored} (+{} deliberately leaked)", self.ctx.leaked_ms);
+            }
         }
         self.ctx.transcript_add(si, len, a.iter().flat_map(|e| [e.kid as u64, e.v as u64]));
         if len as u32 <= self.ctx.cfg.sweep_below {
@@ -557,7 +574,7 @@ impl<K: KeyT, V: ValT> MapWorld<K, V> {
     }
 
     fn op_insert(&mut self, si: usize, op: &Op) -> VResult {
-        let (kid, val) = (op.a as u32 % K::UNIVERSE, op.b as u32);
+        let (kid, val) = (op.a as u32 % K::UNIVERSE, Self::nv(op.b as u32));
         let k = K::make(kid);
         let v = V::make(val);
         let (ks, vs) = (k.serial(), v.serial());
@@ -604,7 +621,7 @@ impl<K: KeyT, V: ValT> MapWorld<K, V> {
     }
 
     fn op_try_insert(&mut self, si: usize, op: &Op) -> VResult {
-        let (kid, val) = (op.a as u32 % K::UNIVERSE, op.b as u32);
+        let (kid, val) = (op.a as u32 % K::UNIVERSE, Self::nv(op.b as u32));
         let k = K::make(kid);
         let v = V::make(val);
         let (ks, vs) = (k.serial(), v.serial());
@@ -642,7 +659,7 @@ impl<K: KeyT, V: ValT> MapWorld<K, V> {
 
     fn op_lookup(&mut self, si: usize, op: &Op) -> VResult {
         let kid = op.a as u32 % K::UNIVERSE;
-        let newv = op.b as u32;
+        let newv = Self::nv(op.b as u32);
         let fc = self.fctx(si, op);
         let want = self.slots[si].model.get(kid);
         if want.is_none() {
@@ -916,7 +933,7 @@ impl<K: KeyT, V: ValT> MapWorld<K, V> {
 
     fn op_extend(&mut self, si: usize, op: &Op) -> VResult {
         // v = [id, val, id, val, ...]; a = claimed lower size hint (-1 = honest); c = 1: iterator panics after b items
-        let pairs: Vec<(u32, u32)> = op.v.chunks(2).filter(|c| c.len() == 2).map(|c| (c[0] as u32 % K::UNIVERSE, c[1] as u32)).collect();
+        let pairs: Vec<(u32, u32)> = op.v.chunks(2).filter(|c| c.len() == 2).map(|c| (c[0] as u32 % K::UNIVERSE, Self::nv(c[1] as u32))).collect();
         let items: Vec<(K, V)> = pairs.iter().map(|&(i, v)| (K::make(i), V::make(v))).collect();
         let toks: Vec<(u32, u32, u32, u32)> = items.iter().map(|(k, v)| (k.id(), k.serial(), v.val(), v.serial())).collect();
         let mut fc = self.fctx(si, op);
@@ -985,7 +1002,7 @@ impl<K: KeyT, V: ValT> MapWorld<K, V> {
                 tick(Class::Pred);
                 seen_ref.push((k.id(), k.serial()));
                 if toggle {
-                    v.set(v.val() ^ TOGGLE);
+                    v.set(v.val() ^ Self::TG);
                 }
                 keep.contains(&k.id())
             })
@@ -1007,7 +1024,7 @@ impl<K: KeyT, V: ValT> MapWorld<K, V> {
         let model = &mut self.slots[si].model;
         if toggle {
             for e in model.e.iter_mut() {
-                e.v ^= TOGGLE;
+                e.v ^= Self::TG;
             }
         }
         let removed: Vec<ME> = model.e.iter().filter(|e| !keep.contains(&e.kid)).copied().collect();
@@ -1039,7 +1056,7 @@ impl<K: KeyT, V: ValT> MapWorld<K, V> {
                 tick(Class::Pred);
                 vis.push((k.id(), k.serial()));
                 if toggle {
-                    v.set(v.val() ^ TOGGLE);
+                    v.set(v.val() ^ Self::TG);
                 }
                 yes.contains(&k.id())
             });
@@ -1092,7 +1109,7 @@ impl<K: KeyT, V: ValT> MapWorld<K, V> {
             match model.pos(kid) {
                 Some(i) if model.e[i].ks == ks => {
                     if toggle {
-                        model.e[i].v ^= TOGGLE;
+                        model.e[i].v ^= Self::TG;
                     }
                     if yes.contains(&kid) {
                         expect_yield.push(model.e.swap_remove(i));
@@ -1392,7 +1409,7 @@ impl<K: KeyT, V: ValT> MapWorld<K, V> {
             if was {
                 vio!(self, "ret/Insert", "insert({kid}) of an absent key returned Some");
             }
-            self.slots[si].model.e.push(ME { kid, ks, v: kid, vs });
+            self.slots[si].model.e.push(ME { kid, ks, v: Self::nv(kid), vs });
             if self.ctx.last_alloc_calls != 0 {
                 vio!(self, "cap/alloc-with-room", "insert number {} of {room} into spare capacity (len {len}) called the allocator", done + 1);
             }
